@@ -67,7 +67,7 @@ func tmVerify(kind int) {
 		MerklePrefix: commitmenttypes.NewMerklePrefix([]byte(storePrefix)), TimeDelay: delay,
 	}
 	h := nondetHeight("h")
-	src, dst := vp.String("src", 2, 2, "ab"), vp.String("dst", 2, 2, "ab")
+	src, dst := vp.String("src", 2, 2, "ab+"), vp.String("dst", 2, 2, "ab+") // '+' is legal in chain names and is special to URL query (not path) escaping
 	seq := vp.Uint64("seq")
 	vp.Assume(seq < 100)
 	value := vp.Bytes("value", 0, 2)
